@@ -968,7 +968,7 @@ def run_cases(ck, cases, exe_model, impl_model_exe=None):
             continue
         a, u = canon_impl(a), canon_impl(u)
         viol = violates(c)
-        pr = py_reach(c["k"], c["o"], c["pos"]) if c["pos"] else False
+        pr = py_reach(c["k"], c["o"], c["pos"])      # pos None: no marker, only "maybe" / None / False
         key = sx(c["k"]) + "|" + sx(c["T"]) + "|" + sx(c["o"])
         ck.case(key=key, nontrivial=bool(viol))
         ck.hist("container", c["k"][0])
@@ -998,6 +998,11 @@ def run_cases(ck, cases, exe_model, impl_model_exe=None):
                 ck.count("order_dependent_unchecked")   # the two runs legitimately took different orders
             elif a != u and a != expected_error(c):
                 direct_bad = "observe (v | T) = %s is neither the component's error %s nor observe v = %s" % (a, expected_error(c), u)
+        elif pr == "maybe":
+            # nothing violates, but the outcome depends on the order in which == / force visit the
+            # fields, and record annotations rebuild the record in another order
+            if a != u:
+                ck.count("order_dependent_unchecked")
         elif pr is False or not viol:
             # not reached, or nothing violates: the annotation must be invisible
             if pr is not None and a != u:
